@@ -3,12 +3,14 @@
   Model: LW.Model.Backend (exact integer model of binary64, RFC 3339 text, go-aes-key-wrap for two blocks);
   RFC 3394 as the RFC states it: LW.Spec.Backend.
   Proved here: Frequency (every integer 0 ≤ f < 2^32 Hz), Percentage (0..1000 by kernel evaluation), HEXBytes (all byte
-  strings), key envelopes (all keys, all KEKs, any lawful block cipher).
-  NOT yet a theorem (checked by the differential runs and judged against the property at run time only): the ISO8601Time
-  text round trip and the composition of the 23 payload structs through encoding/json.
+  strings), ISO8601Time (every instant of the years 0..9999 in every whole-minute zone), key envelopes (all keys, all KEKs,
+  any lawful block cipher).
+  NOT a theorem (checked by the differential runs and judged against the property at run time only): the composition of
+  the 23 payload structs through encoding/json.
 -/
 import LW.Proofs.Float
 import LW.Proofs.Backend
+import LW.Proofs.Time
 namespace LW.C17
 open LW Outcome LW.Backend
 
@@ -54,7 +56,28 @@ theorem C17_clear_without_label (E : BlockCipher) (kek key : Bytes) :
     newKeyEnvelope E false kek key = ok (false, key) ∧ newKeyEnvelope E true [] key = ok (false, key) := by
   constructor <;> simp [newKeyEnvelope]
 
+/-- ISO8601Time: the RFC 3339 text of the instant `sec` (Unix seconds; the layout drops the nanoseconds) shown in a zone
+`offMin` whole minutes east of UTC parses back to exactly `sec`, for every instant whose year in that zone is 0..9999 (the
+years the four-digit layout can write) and every offset below a day.  Rests on the correctness of the days ↔ civil date
+conversion over whole 400-year eras (`civilFromDays_ok`, below). -/
+theorem C17_time_roundtrip (sec offMin : Int) (ho : -1440 < offMin ∧ offMin < 1440)
+    (hy : 0 ≤ (civilFromDays ((sec + offMin * 60) / 86400)).1 ∧ (civilFromDays ((sec + offMin * 60) / 86400)).1 ≤ 9999) :
+    parseRFC3339 (formatRFC3339 sec offMin) = some (sec, 0) :=
+  parse_format sec offMin ho.1 ho.2 hy.1 hy.2
+
+/-- the calendar under it: for EVERY day number the civil date is a real date (month 1..12, day 1..length of that month,
+leap years by the Gregorian rule) and converts back to the same day number -/
+theorem C17_calendar (z : Int) :
+    1 ≤ (civilFromDays z).2.1 ∧ (civilFromDays z).2.1 ≤ 12 ∧ 1 ≤ (civilFromDays z).2.2 ∧
+      (civilFromDays z).2.2 ≤ daysIn (civilFromDays z).1 (civilFromDays z).2.1 ∧
+      daysFromCivil (civilFromDays z).1 (civilFromDays z).2.1 (civilFromDays z).2.2 = z :=
+  civilFromDays_ok z
+
 /-! non-vacuity -/
+example : civilFromDays ((-62167219200 + 0 * 60) / 86400) = (0, 1, 1) := by decide
+example : civilFromDays ((253402300799 + 0 * 60) / 86400) = (9999, 12, 31) := by decide
+example : civilFromDays ((1583020800 + 0 * 60) / 86400) = (2020, 3, 1) ∧ civilFromDays ((1582934400 + 0 * 60) / 86400) = (2020, 2, 29) := by decide
+example : parseRFC3339 (formatRFC3339 1582934399 (-330)) = some (1582934399, 0) := by decide
 example : (128200000 : Nat) < 2 ^ 32 := by decide
 example : validKEK ((List.range 24).map byteOfNat) := by simp [validKEK]
 
